@@ -250,6 +250,18 @@ class Case:
         self.history_size = rng.choice([1, 3, 5, 10])
         na = rng.choice([None, 0, 1, 2, 3])
         self.args = None if na is None else [float(rng.randrange(-8, 9)) / 4 for _ in range(na)]
+        if self.args and rng.random() < 0.4:
+            # extra arguments are the caller's objects, whatever they are: an int, a bool, and (ignored by the arithmetic
+            # of the objective, but it must receive them as given) a label or an array
+            k = rng.randrange(len(self.args))
+            self.args[k] = rng.choice([2, -1, True, 3])
+            if rng.random() < 0.5:
+                self.args.append(rng.choice(["quartic", np.array([1.0, 2.0, 3.0]), ("a", 1)]))
+        if self.kind in ("quadratic", "cosine", "styblinski") and self.boxkind == "finite" and rng.random() < 0.15:
+            # a start written as integers (np.array([3, -4, 1])): an integer-typed array
+            xi = np.array([int(np.clip(round(v), math.ceil(lo), math.floor(hi))) for v, (lo, hi) in zip(self.x0, bounds)])
+            if all(lo <= v <= hi for v, (lo, hi) in zip(xi, bounds)):
+                self.x0 = xi
         self.args_omitted = na is None and rng.random() < 0.5
         # parameters of the surface
         if self.kind in ("quadratic", "quadratic-outside"):
@@ -301,11 +313,11 @@ class Case:
         self.received.append(extra)
         f, g = self.base(np.array(x, dtype=float))
         if len(extra) >= 1:
-            f += extra[0]
+            f += float(extra[0])
         if len(extra) >= 2:
-            f += extra[1] * float(x[0])
+            f += float(extra[1]) * float(x[0])
             g = g.copy()
-            g[0] += extra[1]
+            g[0] += float(extra[1])
         return f, g
 
     def run(self):
@@ -320,7 +332,7 @@ class Case:
     def describe(self) -> dict:
         return {"case_seed": self.seed, "case_kind": self.force_kind, "kind": self.kind, "dim": self.dim, "box": self.boxkind,
                 "bounds": [list(b) for b in self.bounds], "x0": self.x0.tolist(), "conv_crit": self.conv_crit,
-                "n_steps": self.n_steps, "history_size": self.history_size, "args": self.args,
+                "n_steps": self.n_steps, "history_size": self.history_size, "args": repr(self.args),
                 "args_omitted": self.args_omitted}
 
 
@@ -354,6 +366,17 @@ def same_value(f, fx) -> bool:
     return f == fx or abs(f - fx) <= VALUE_TOL * max(1.0, abs(f), abs(fx))
 
 
+def same_object(a, b) -> bool:
+    """the argument arrives as given: the very object, or an equal value of the same type"""
+    if a is b:
+        return True
+    if type(a) is not type(b):
+        return False
+    if isinstance(a, np.ndarray):
+        return a.dtype == b.dtype and a.shape == b.shape and bool(np.array_equal(a, b))
+    return bool(a == b)
+
+
 def clauses(case: Case) -> tuple[str, str, dict] | None:
     """the property's own predicate on one real minimisation (written from the statement)"""
     try:
@@ -363,8 +386,9 @@ def clauses(case: Case) -> tuple[str, str, dict] | None:
     x = np.asarray(x, dtype=float)
     want_args = tuple(case.args) if case.args is not None else ()
     for r in case.received:
-        if len(r) != len(want_args) or any(a is not b and a != b for a, b in zip(r, want_args)):
-            return ("args-changed", f"the objective received extra arguments {r!r}, the caller passed {want_args!r}", {})
+        if len(r) != len(want_args) or any(not same_object(a, b) for a, b in zip(r, want_args)):
+            return ("args-changed", f"the objective received extra arguments {r!r} (types {[type(a).__name__ for a in r]}), "
+                    f"the caller passed {want_args!r} (types {[type(a).__name__ for a in want_args]})", {})
     for j, (lo, hi) in enumerate(case.bounds):
         if (lo is not None and x[j] < lo) or (hi is not None and x[j] > hi):
             return ("outside-box", f"coordinate {j} of the result = {x[j]!r} is outside [{lo}, {hi}]", {})
@@ -422,7 +446,7 @@ def correspond(ctx: Ctx) -> None:
         x = np.asarray(x, dtype=float)
         want_args = tuple(c.args) if c.args is not None else ()
         ncalls = len(c.received)
-        args_ok = all(r == want_args for r in c.received)
+        args_ok = all(len(r) == len(want_args) and all(same_object(a, b) for a, b in zip(r, want_args)) for r in c.received)
         fx, gx = c.objective(x, *want_args)
         f0, _ = c.objective(c.x0, *want_args)
         cases.append((c, x, f, d, fx, gx, f0, args_ok, ncalls))
